@@ -59,7 +59,7 @@ _METHODS = {
 
 
 class Mini:
-    def __init__(self, funcs=None, budget=20000, consts=None, externals=None):
+    def __init__(self, funcs=None, budget=20000, consts=None, externals=None, classes=None):
         """``funcs``: name -> ast.FunctionDef of helper functions that may be called (interpreted recursively);
         ``consts``: module-level constants (strings, numbers) the functions read."""
         self.funcs = funcs or {}
@@ -67,6 +67,8 @@ class Mini:
         self.consts = consts or {}
         # name -> python callable standing in for a function that is outside the fragment (called with evaluated args)
         self.externals = externals or {}
+        # class name -> {method name -> ast.FunctionDef}: instances are namespaces carrying `__cls__`
+        self.classes = classes or {}
 
     # ------------------------------------------------------------ expressions
     def ev(self, e, env):
@@ -78,6 +80,11 @@ class Mini:
         if isinstance(e, ast.Name):
             if e.id in env:
                 return env[e.id]
+            par_ = env.get("__parent__")
+            while par_ is not None:
+                if e.id in par_:
+                    return par_[e.id]
+                par_ = par_.get("__parent__")
             if e.id in ("True", "False", "None"):
                 return {"True": True, "False": False, "None": None}[e.id]
             if e.id in self.consts:
@@ -186,10 +193,19 @@ class Mini:
             if all(self.ev(c, env2) for c in g.ifs):
                 self._comp(gens, i + 1, env2, emit)
 
+    def _args(self, e, env):
+        out = []
+        for a in e.args:
+            if isinstance(a, ast.Starred):
+                out.extend(self.ev(a.value, env))
+            else:
+                out.append(self.ev(a, env))
+        return out
+
     def _call(self, e, env):
         fn = e.func
         if e.keywords and not (isinstance(fn, ast.Attribute) or (isinstance(fn, ast.Name) and (
-                fn.id in self.funcs or fn.id in self.externals or fn.id == "sorted" or isinstance(env.get(fn.id), tuple)))):
+                fn.id in self.funcs or fn.id in self.externals or fn.id in self.classes or fn.id == "sorted" or True))):
             raise NoEval("keyword arguments")
         if isinstance(fn, ast.Name):
             if fn.id == "slice":
@@ -217,6 +233,22 @@ class Mini:
             if isinstance(env.get(fn.id), tuple) and env[fn.id][:1] == ("mathfn",):
                 import math as _math
                 return getattr(_math, env[fn.id][1])(*[self.ev(a, env) for a in e.args])
+            target_ = None
+            scope_ = env
+            while scope_ is not None and target_ is None:
+                if isinstance(scope_.get(fn.id), tuple) and scope_[fn.id][:1] == ("closure",):
+                    target_ = scope_[fn.id]
+                scope_ = scope_.get("__parent__")
+            if target_ is not None:
+                _tag, fdef_, cenv_ = target_
+                return self.call(fdef_, self._args(e, env), {k.arg: self.ev(k.value, env) for k in e.keywords}, parent=cenv_)
+            if fn.id in self.classes:
+                import types as _types
+                obj = _types.SimpleNamespace(__cls__=fn.id)
+                init = self.classes[fn.id].get("__init__")
+                if init is not None:
+                    self.call(init, [obj] + [self.ev(a, env) for a in e.args], {k.arg: self.ev(k.value, env) for k in e.keywords})
+                return obj
             if isinstance(env.get(fn.id), tuple) and env[fn.id][:1] == ("minifn",):
                 _tag, name_, extra = env[fn.id]
                 kw = {k.arg: self.ev(k.value, env) for k in e.keywords}
@@ -249,6 +281,11 @@ class Mini:
                 import bisect as _b
                 seq, x = self.ev(e.args[0], env), self.ev(e.args[1], env)
                 return (_b.bisect_left if fn.attr == "bisect_left" else _b.bisect_right)(seq, x)
+            if isinstance(fn.value, ast.Name) and fn.value.id == "heapq" and "heapq" not in env:
+                import heapq as _hq
+                if fn.attr not in ("heappush", "heappop", "heapify", "heappushpop", "nsmallest", "nlargest"):
+                    raise NoEval(f"heapq.{fn.attr}")
+                return getattr(_hq, fn.attr)(*[self.ev(a, env) for a in e.args])
             if isinstance(fn.value, ast.Name) and fn.value.id == "itertools" and "itertools" not in env:
                 import itertools as _it
                 if fn.attr not in ("product", "combinations", "permutations", "chain", "count"):
@@ -258,6 +295,10 @@ class Mini:
                 return list(getattr(_it, fn.attr)(*[self.ev(a, env) for a in e.args]))
             recv = self.ev(fn.value, env) if not (isinstance(fn.value, ast.Name) and fn.value.id == "math" and "math" not in env) else __import__("math")
             import types as _types
+            if isinstance(recv, _types.SimpleNamespace) and getattr(recv, "__cls__", None) in self.classes and \
+                    fn.attr in self.classes[recv.__cls__] and not hasattr(recv, fn.attr):
+                return self.call(self.classes[recv.__cls__][fn.attr], [recv] + self._args(e, env),
+                                 {k.arg: self.ev(k.value, env) for k in e.keywords})
             if isinstance(recv, _types.SimpleNamespace) and callable(getattr(recv, fn.attr, None)):
                 return getattr(recv, fn.attr)(*[self.ev(a, env) for a in e.args], **{k.arg: self.ev(k.value, env) for k in e.keywords})
             import math as _math
@@ -300,6 +341,12 @@ class Mini:
                 self._bind(te, ve, env)
         elif isinstance(t, ast.Subscript):
             self.ev(t.value, env)[self.ev(t.slice, env)] = v
+        elif isinstance(t, ast.Attribute):
+            import types as _types
+            recv = self.ev(t.value, env)
+            if not isinstance(recv, _types.SimpleNamespace):
+                raise NoEval("attribute assignment")
+            setattr(recv, t.attr, v)
         else:
             raise NoEval("assignment target")
 
@@ -311,6 +358,12 @@ class Mini:
             if isinstance(st, ast.Expr):
                 if isinstance(st.value, ast.Constant):
                     continue
+                if isinstance(st.value, ast.Yield):
+                    self._yields(env).append(self.ev(st.value.value, env) if st.value.value is not None else None)
+                    continue
+                if isinstance(st.value, ast.YieldFrom):
+                    self._yields(env).extend(list(self.ev(st.value.value, env)))
+                    continue
                 self.ev(st.value, env)
             elif isinstance(st, ast.Assign):
                 v = self.ev(st.value, env)
@@ -320,7 +373,7 @@ class Mini:
                 cur = self.ev(st.target, env)
                 v = self.ev(st.value, env)
                 ops = {ast.Add: lambda: cur + v, ast.Sub: lambda: cur - v, ast.Mult: lambda: cur * v, ast.BitOr: lambda: cur | v,
-                       ast.Mod: lambda: cur % v, ast.FloorDiv: lambda: cur // v, ast.BitAnd: lambda: cur & v}
+                       ast.Mod: lambda: cur % v, ast.FloorDiv: lambda: cur // v, ast.BitAnd: lambda: cur & v, ast.Div: lambda: cur / v}
                 if type(st.op) not in ops:
                     raise NoEval("augmented assignment")
                 self._bind(st.target, ops[type(st.op)](), env)
@@ -355,6 +408,8 @@ class Mini:
                 raise _Break()
             elif isinstance(st, ast.Pass):
                 pass
+            elif isinstance(st, ast.FunctionDef):
+                env[st.name] = ("closure", st, env)
             elif isinstance(st, ast.Try):
                 self._try(st, env)
             elif isinstance(st, (ast.Import, ast.ImportFrom)):
@@ -417,10 +472,27 @@ class Mini:
                 return
         raise ex
 
-    def call(self, fdef, args, kwargs=None):
+    @staticmethod
+    def _yields(env):
+        if "__yields__" not in env:
+            raise NoEval("yield outside a generator call")
+        return env["__yields__"]
+
+    def call(self, fdef, args, kwargs=None, parent=None):
         a = fdef.args
         names = [x.arg for x in a.posonlyargs + a.args]
         env = {}
+        if parent is not None:
+            env["__parent__"] = parent
+        is_gen = any(isinstance(n_, (ast.Yield, ast.YieldFrom)) for n_ in ast.walk(fdef)
+                     if not isinstance(n_, ast.FunctionDef) or n_ is fdef)
+        if is_gen:
+            env["__yields__"] = []
+        for kwa, kwd in zip(a.kwonlyargs, a.kw_defaults):
+            if kwargs and kwa.arg in kwargs:
+                env[kwa.arg] = kwargs[kwa.arg]
+            elif kwd is not None:
+                env[kwa.arg] = self.ev(kwd, {})
         defaults = dict(zip(names[len(names) - len(a.defaults):], a.defaults))
         for n, v in zip(names, args):
             env[n] = v
@@ -434,5 +506,5 @@ class Mini:
         try:
             self.run(fdef.body, env)
         except _Return as r:
-            return r.value
-        return None
+            return env["__yields__"] if is_gen else r.value
+        return env["__yields__"] if is_gen else None
